@@ -630,7 +630,7 @@ where
                 // Run hashing on the thread-pool dedicated to the device.
                 // Group files by their identifiers so we hash only one file per unique id.
                 for (_, fg) in &files.into_iter().group_by(|f| f.file_info.id) {
-                    let mut fg = fg.collect_vec();
+                    let fg = fg.collect_vec();
                     let tx = tx.clone();
                     let guard = semaphore.clone().access_owned();
 
@@ -646,15 +646,24 @@ where
                     let hash_fn: &HashFn<'static> = unsafe { std::mem::transmute(hash_fn) };
                     thread_pool.spawn_fifo(move || {
                         let _open_files_guard = RLIMIT_OPEN_FILES.clone().access_owned();
-                        let old_hash = fg[0].file_hash.clone();
-                        if let Some(hash) = hash_fn((&mut fg[0].file_info, old_hash)) {
-                            // The hash function may update the length (transformed length);
-                            // all paths of the same file must get the same length as well.
-                            let len = fg[0].file_info.len;
-                            for mut f in fg {
-                                f.file_info.len = len;
-                                f.file_hash = hash.clone();
-                                tx.send(f).unwrap();
+                        // All paths in `fg` lead to the same file, so it is hashed only once.
+                        // If a path cannot be read (e.g. it has just been removed), it is
+                        // left out and the next path of the same file is tried.
+                        let mut paths = fg.into_iter();
+                        while let Some(mut first) = paths.next() {
+                            let old_hash = first.file_hash.clone();
+                            if let Some(hash) = hash_fn((&mut first.file_info, old_hash)) {
+                                // The hash function may update the length (transformed length);
+                                // all paths of the same file must get the same length as well.
+                                let len = first.file_info.len;
+                                first.file_hash = hash.clone();
+                                tx.send(first).unwrap();
+                                for mut f in paths {
+                                    f.file_info.len = len;
+                                    f.file_hash = hash.clone();
+                                    tx.send(f).unwrap();
+                                }
+                                break;
                             }
                         }
                         // This forces moving the guard into this task and be released when
